@@ -240,7 +240,7 @@ pub fn execute(plan: &Plan, sandbox: &Path, verbose: bool) -> ExecRecord {
             // the CLI runs create_source on the 8 MiB main thread
             cfg.stack_size = 8 << 20;
             cfg.failure_persistence = shuttle::FailurePersistence::None;
-            cfg.max_steps = shuttle::MaxSteps::FailAfter(MAX_STEPS);
+            cfg.max_steps = shuttle::MaxSteps::FailAfter(plan2.max_steps.unwrap_or(MAX_STEPS));
             cfg.silence_warnings = true;
             let sched = sim::SimScheduler::new(plan2.strategy.seed);
             let runner = shuttle::Runner::new(sched, cfg);
